@@ -253,6 +253,22 @@ func structuralMutations(valid *pb.QuoteV4) []msgMut {
 						}
 					})
 				}
+				// entry lengths that compensate each other: the list's total is what a well-formed one has (4 x 48 bytes), the
+				// entries are not (fewer entries; four entries of other lengths)
+				for _, lens := range [][]int{{192}, {96, 96}, {64, 64, 64}, {48, 48, 96}, {48, 48, 96, 0}, {47, 49, 48, 48}, {0, 0, 0, 192}, {1, 95, 48, 48}, {48, 48, 48, 24, 24}, {32, 32, 32, 32, 32, 32}} {
+					lens := lens
+					add(fmt.Sprintf("%s:lens=%v", name, lens), func(m *pb.QuoteV4) {
+						l := at(m, p).Mutable(fd).List()
+						l.Truncate(0)
+						for _, n := range lens {
+							b := make([]byte, n)
+							for i := range b {
+								b[i] = byte(n + i)
+							}
+							l.Append(protoreflect.ValueOfBytes(b))
+						}
+					})
+				}
 				for _, ln := range []int{-1, 0, 1, 47, 49, 96} {
 					for _, idx := range []int{0, 3} {
 						ln, idx := ln, idx
